@@ -250,7 +250,7 @@ def random_cases(rng, n):
             if r < 0.45:
                 continue
             if r < 0.8:
-                good = {"run": [("'./x.sh --a'", "./x.sh --a")], "parallelizable": [("True", True), ("False", False)],
+                good = {"run": [("'true --a'", "true --a")], "parallelizable": [("True", True), ("False", False)],
                         "args": [("[]", []), ("[1, 'a']", [1, "a"]), ("[True, 2.5]", [True, 2.5])], "options": [("{}", {}), ("{'k': 1}", {"k": 1}), ("{'a': 'b', 'c': False}", {"a": "b", "c": False})],
                         "deps": [("[]", []), ("[':h1']", [":h1"]), ("['//lib:h2', ':h1']", ["//lib:h2", ":h1"]), ("['//lib/deep:h3']", ["//lib/deep:h3"])]}[p]
                 vs, vv = rng.choice(good)
